@@ -31,7 +31,7 @@ func init() {
 			"bit operators and ~ are asserted on non-negative integers within 2^53 with Go int64 semantics; shift counts 0..62",
 			"every non-column item is aliased; -0 and +0 are equal",
 		},
-		Floor:         append([]string{"item.bare", "item.aliased", "lit.str", "lit.null", "nullresult", "source.inner-arrays.no-where", "source.inner-arrays.named", "arith.through-infinity"}, c02Forced...),
+		Floor:         append([]string{"item.bare", "item.aliased", "lit.str", "lit.null", "nullresult", "source.inner-arrays.no-where", "source.inner-arrays.named", "arith.through-infinity", "arith.null-left"}, c02Forced...),
 		MinNontrivial: 50,
 		Phases: []fw.Phase{
 			{Name: "proj", N: func(t fw.Tier) int { return pick(t, 16000, 500000) }, Run: c02Proj},
@@ -135,6 +135,11 @@ func c02Proj(c *fw.Case) {
 		big := gen.Bin{Op: "*", L: gen.Bin{Op: "+", L: gen.Bin{Op: "*", L: gen.ColRef{Name: "n1"}, R: gen.ColRef{Name: "n1"}}, R: gen.NumLit{V: 1}}, R: gen.NumLit{V: 1e308}}
 		inf := gen.Bin{Op: "*", L: big, R: gen.NumLit{V: 10}}
 		items = append(items, gen.SelectItem{E: gen.Bin{Op: "/", L: gen.NumLit{V: float64(1 + c.Intn(9))}, R: inf}, Alias: "thru_inf"})
+		computed = true
+	}
+	if force == "" && c.Chance(0.04) {
+		// a NULL left operand makes the operator NULL - the right operand, itself undefined for NULL, is not asked
+		items = append(items, gen.SelectItem{E: gen.Bin{Op: gen.Pick(c.R, []string{"*", "+", "-", "/"}), L: gen.ColRef{Name: "zz"}, R: gen.Neg{E: gen.ColRef{Name: "zz"}}}, Alias: "null_left"})
 		computed = true
 	}
 	var where gen.Pred
@@ -288,6 +293,9 @@ func c02Proj(c *fw.Case) {
 				c.Discard("domain")
 				c.Count("discard.non-finite result", 1)
 				return
+			}
+			if it.Alias == "null_left" {
+				feats = append(feats, "arith.null-left")
 			}
 			if it.Alias == "thru_inf" {
 				feats = append(feats, "arith.through-infinity")
